@@ -74,6 +74,11 @@ pub struct IsoCase {
     /// that trap reset like any other, and the pending action runs once, in the parent
     #[serde(default)]
     pub in_trap: bool,
+    /// the outer subshell (if any) is an asynchronous list `{ ... } & wait` instead of `( ... )`:
+    /// without job control it ignores SIGINT and SIGQUIT, and subshells nested in it must go on
+    /// ignoring them
+    #[serde(default)]
+    pub outer_async: bool,
 }
 
 const PRELUDE: &str = "v1=orig\nv2=orig2\nexport v2\nf1() { echo f1; }\nalias a1='echo a1'\nset -- x y\ntrap 'echo usr1' USR1\ntrap '' USR2\ntrap 'mark XT' EXIT\nexec 3>/tmp/f0\numask 027\n";
@@ -121,7 +126,7 @@ fn script(c: &IsoCase) -> String {
                 outer.push_str(MUTATORS[*m as usize % MUTATORS.len()]);
                 outer.push('\n');
             }
-            format!("snap A\n(\n{outer}snap P\n{cmd}\nsnap Q\n)\nsnap B\n")
+            if c.outer_async { format!("snap A\n{{\n{outer}snap P\n{cmd}\nsnap Q\n}} &\nwait\nsnap B\n") } else { format!("snap A\n(\n{outer}snap P\n{cmd}\nsnap Q\n)\nsnap B\n") }
         };
         return format!("{pre}trap 'mark PH' HUP\nbody() {{\nkill -s HUP $$\n{inner}}}\ntrap body ALRM\nkill -s ALRM $$\nmark END\n");
     }
@@ -133,7 +138,7 @@ fn script(c: &IsoCase) -> String {
             outer.push_str(MUTATORS[*m as usize % MUTATORS.len()]);
             outer.push('\n');
         }
-        format!("{pre}snap A\n(\n{outer}snap P\n{cmd}\nsnap Q\n)\nsnap B\n")
+        if c.outer_async { format!("{pre}snap A\n{{\n{outer}snap P\n{cmd}\nsnap Q\n}} &\nwait\nsnap B\n") } else { format!("{pre}snap A\n(\n{outer}snap P\n{cmd}\nsnap Q\n)\nsnap B\n") }
     }
 }
 
@@ -360,6 +365,16 @@ fn check_iso(c: &IsoCase) -> Outcome {
                 _ => {}
             }
         }
+        // whatever made the starting process ignore a signal - a trap, inheritance, or being an
+        // asynchronous list without job control (SIGINT, SIGQUIT) - the subshell goes on ignoring it
+        // (an interactive shell ignores some signals for its own needs only: left out)
+        if !c.interactive {
+            for name in ["INT", "QUIT", "TERM", "HUP", "USR1", "USR2"] {
+                if disp(refproc, name) == "Ignore" && disp(pc0, name) != "Ignore" {
+                    return Outcome::fail(ctx(format!("{name} is ignored in the process that started the subshell; in the subshell it must stay ignored, found {}", disp(pc0, name))));
+                }
+            }
+        }
     }
     // non-triviality: did the mutators change the child's own state?
     let changed = match find("C1") {
@@ -379,6 +394,7 @@ fn check_iso(c: &IsoCase) -> Outcome {
         })
         .class_if(changed, "child-state-changed")
         .class_if(!c.outer.is_empty(), "nested-in-outer-subshell")
+        .class_if(!c.outer.is_empty() && c.outer_async, "nested-in-asynchronous-list")
         .class_if(c.interactive, "interactive-shell")
         .class_if(c.in_trap && !c.interactive, "started-in-trap-action-with-a-signal-pending")
         .class_if(!c.interactive && c.closed & 7 != 0, "standard-descriptor-closed-before")
@@ -400,7 +416,7 @@ pub fn run(ctx: &Ctx, st: &mut Stats) {
         let kind = KINDS[(r % nk) as usize];
         let m = (r / nk) as u16;
         let chooser = if sc == 0 { Chooser::Fifo } else { Chooser::Seeded(seed * 7919 + i) };
-        Some(IsoCase { kind, mutators: vec![m], chooser, outer: vec![], ending: 0, interactive: false, closed: 0, in_trap: false })
+        Some(IsoCase { kind, mutators: vec![m], chooser, outer: vec![], ending: 0, interactive: false, closed: 0, in_trap: false, outer_async: false })
     };
     ISO.run_exhaustive(ctx, st, nm * nk * nsched, &decode);
     st.exhaustive_drivers.retain(|d| d != "isolation"); // schedules are sampled
@@ -409,9 +425,17 @@ pub fn run(ctx: &Ctx, st: &mut Stats) {
     let decode2 = move |i: u64| -> Option<IsoCase> {
         let kind = KINDS[(i % nk) as usize];
         let m = (i / nk) as u16;
-        Some(IsoCase { kind, mutators: vec![0], chooser: Chooser::Fifo, outer: vec![m], ending: 0, interactive: false, closed: 0, in_trap: false })
+        Some(IsoCase { kind, mutators: vec![0], chooser: Chooser::Fifo, outer: vec![m], ending: 0, interactive: false, closed: 0, in_trap: false, outer_async: false })
     };
     ISO.run_exhaustive(ctx, st, nm * nk, &decode2);
+    st.exhaustive_drivers.retain(|d| d != "isolation");
+    // the same with an asynchronous list as the outer subshell
+    let decode2b = move |i: u64| -> Option<IsoCase> {
+        let kind = KINDS[(i % nk) as usize];
+        let m = (i / nk) as u16;
+        Some(IsoCase { kind, mutators: vec![0], chooser: Chooser::Fifo, outer: vec![m], ending: 0, interactive: false, closed: 0, in_trap: false, outer_async: true })
+    };
+    ISO.run_exhaustive(ctx, st, nm * nk, &decode2b);
     st.exhaustive_drivers.retain(|d| d != "isolation");
     // every kind x every way the subshell can end x interactive or not x a few mutators
     let decode3 = move |i: u64| -> Option<IsoCase> {
@@ -421,7 +445,7 @@ pub fn run(ctx: &Ctx, st: &mut Stats) {
         let r = r / 5;
         let interactive = r % 2 == 1;
         let m = [0u16, 37, 48, 42][(r / 2) as usize];
-        Some(IsoCase { kind, mutators: vec![m], chooser: Chooser::Fifo, outer: vec![], ending, interactive, closed: 0, in_trap: false })
+        Some(IsoCase { kind, mutators: vec![m], chooser: Chooser::Fifo, outer: vec![], ending, interactive, closed: 0, in_trap: false, outer_async: false })
     };
     ISO.run_exhaustive(ctx, st, nk * 5 * 2 * 4, &decode3);
     st.exhaustive_drivers.retain(|d| d != "isolation");
@@ -431,7 +455,7 @@ pub fn run(ctx: &Ctx, st: &mut Stats) {
         let r = i / nk;
         let closed = (r % 7) as u8 + 1;
         let outer = if r / 7 == 1 { vec![0u16] } else { vec![] };
-        Some(IsoCase { kind, mutators: vec![0], chooser: Chooser::Fifo, outer, ending: 0, interactive: false, closed, in_trap: false })
+        Some(IsoCase { kind, mutators: vec![0], chooser: Chooser::Fifo, outer, ending: 0, interactive: false, closed, in_trap: false, outer_async: false })
     };
     ISO.run_exhaustive(ctx, st, nk * 7 * 2, &decode4);
     st.exhaustive_drivers.retain(|d| d != "isolation");
@@ -441,7 +465,7 @@ pub fn run(ctx: &Ctx, st: &mut Stats) {
         let r = i / nk;
         let m = [0u16, 42, 44, 46][(r % 4) as usize];
         let outer = if r / 4 == 1 { vec![0u16] } else { vec![] };
-        Some(IsoCase { kind, mutators: vec![m], chooser: Chooser::Fifo, outer, ending: 0, interactive: false, closed: 0, in_trap: true })
+        Some(IsoCase { kind, mutators: vec![m], chooser: Chooser::Fifo, outer, ending: 0, interactive: false, closed: 0, in_trap: true, outer_async: false })
     };
     ISO.run_exhaustive(ctx, st, nk * 4 * 2, &decode5);
     st.exhaustive_drivers.retain(|d| d != "isolation");
@@ -452,13 +476,13 @@ pub fn run(ctx: &Ctx, st: &mut Stats) {
             0usize..KINDS.len(),
             prop::collection::vec(0u16..MUTATORS.len() as u16, 1..6),
             prop_oneof![1 => Just(None), 3 => any::<u64>().prop_map(Some)],
-            prop_oneof![1 => Just(vec![]), 1 => prop::collection::vec(0u16..MUTATORS.len() as u16, 1..4)],
+            (prop_oneof![1 => Just(vec![]), 1 => prop::collection::vec(0u16..MUTATORS.len() as u16, 1..4)], prop::bool::weighted(0.4)),
             prop_oneof![3 => Just(0u8), 2 => 1u8..5],
             prop::bool::weighted(0.3),
             prop_oneof![3 => Just(0u8), 1 => 1u8..8],
             prop::bool::weighted(0.2),
         )
-            .prop_map(|(k, mutators, seed, outer, ending, interactive, closed, in_trap)| IsoCase {
+            .prop_map(|(k, mutators, seed, (outer, outer_async), ending, interactive, closed, in_trap)| IsoCase {
                 kind: KINDS[k],
                 mutators,
                 chooser: seed.map_or(Chooser::Fifo, Chooser::Seeded),
@@ -467,6 +491,7 @@ pub fn run(ctx: &Ctx, st: &mut Stats) {
                 interactive,
                 closed,
                 in_trap,
+                outer_async,
             })
     });
 }
